@@ -276,6 +276,8 @@ def respond_mirror(ctx):
         fn2, lv2 = leaves(ctx, f.name, lower=True)
         seen = set()
         for lf in lv2:
+            if srv.state_infeasible(facts, lf):
+                continue
             for m in calls(lf, S + "epoll_mod"):
                 v = eventset_value(m[4][2][2])
                 if (m[1], v) in seen:
